@@ -1,6 +1,7 @@
 /-
 C16 — Trading halt rule: no fills on a stopped market; halt and resume on schedule.
 -/
+import PamsLemmas.SourceTie
 import PamsModel.Events
 import PamsProps.C08
 import PamsProps.C09
@@ -94,5 +95,10 @@ theorem nonvacuous :
     (haltBeforeStep 3 { halted := some 2, startedAt := 7, activations := 1 } 2 11).2 = true ∧
     (haltBeforeStep 3 { halted := some 2, startedAt := 7, activations := 1 } 0 11).2 = false ∧
     (haltBeforeStep 3 HaltState.init 2 50).2 = false := by decide
+
+/-- (T) the halt test `>=` and the resume test `>` of `TradingHaltRule` in the current sources -/
+theorem source_halt_tests :
+    Pams.Source.opsOf "TradingHaltRule.hooked_after_execution" = [">=", "==", "is"] ∧
+    Pams.Source.opsOf "TradingHaltRule.hooked_before_step_for_market" = [">", "==", "is", "is not", "is not"] := by decide
 
 end Pams.C16
